@@ -86,7 +86,7 @@ End(outcome, errcls, killed, i) ==
   LET rep == IF outcome = "normal" THEN i.reports ELSE <<>>
       obs == [req |-> i.req, force |-> i.force, failing |-> i.failing, reports |-> rep, ran |-> i.ran,
               outcome |-> outcome, errcls |-> errcls, killed |-> killed] IN
-  /\ Observe(obs) /\ UNCHANGED fs
+  /\ UNCHANGED fs /\ Observe(obs)
   /\ inv' = Idle
   /\ Note([act |-> "invoke", req |-> i.req, force |-> i.force, failing |-> i.failing, reports |-> rep,
            ran |-> i.ran, outcome |-> outcome, errcls |-> errcls, killed |-> killed])
